@@ -22,10 +22,13 @@ import (
 // exactly -- first the sender's balance of the original denomination, then everything else.
 // Success: the acknowledgement transaction changes no balance or supply on the sending chain.
 // Any further terminal message (verbatim duplicate, fresh ack, fresh timeout, forged ack) changes
-// nothing anywhere.
+// nothing anywhere. In these honest scenarios a due refund must also actually happen: when the
+// error acknowledgement is written (resp. the packet has timed out unreceived) and the relay with a
+// fresh proof is refused twice while the packet stays pending, the sender is never refunded -- that
+// is reported too (error-ack-refund-refused / timeout-refund-refused).
 
 type c32Case struct {
-	Link     int   `json:"link"`     // kind of L0: 0 v1, 1 v2, 2 alias
+	Link     int   `json:"link"`     // kind of L0: 0 v1, 1 v2, 2 alias, 3 v1 channel whose counterparty port is "mock" (scripted app answering every receive with an error ack)
 	Hops     int   `json:"hops"`     // 0 native, 1, 2
 	Return   bool  `json:"return"`   // Hops>0: send the voucher back over the end it arrived on
 	Setup    []int `json:"setup"`    // kinds of the two setup links
@@ -48,7 +51,7 @@ var c32Pool = []string{"ufoo", "atom2", "ubar", "gamm/pool/1", "factory/osmo1abc
 
 func genC32(t *rapid.T) c32Case {
 	c := c32Case{
-		Link:     rapid.IntRange(0, 2).Draw(t, "link"),
+		Link:     rapid.SampledFrom([]int{0, 1, 2, 0, 1, 2, 3}).Draw(t, "link"),
 		Hops:     rapid.SampledFrom([]int{0, 1, 1, 2, 2}).Draw(t, "hops"),
 		Return:   rapid.Bool().Draw(t, "return"),
 		Setup:    []int{rapid.IntRange(0, 2).Draw(t, "setup1"), rapid.IntRange(0, 2).Draw(t, "setup2")},
@@ -63,6 +66,10 @@ func genC32(t *rapid.T) c32Case {
 		Relayer:  rapid.IntRange(0, 9).Draw(t, "relayer"),
 		LateRecv: rapid.Bool().Draw(t, "laterecv"),
 		Disable:  rapid.IntRange(0, 4).Draw(t, "disable") == 0,
+	}
+	if c.Link == tokensim.KMock {
+		// the mock counterparty cannot succeed: error ack, timeouts, boundary race
+		c.Outcome = rapid.SampledFrom([]int{1, 4, 5, 4, 5, 6}).Draw(t, "mockoutcome")
 	}
 	allV1 := c.Link == 0 && (c.Hops == 0 || (c.Setup[0] == 0 && c.Setup[1] == 0))
 	if allV1 {
@@ -104,7 +111,11 @@ func runC32(outer *testing.T) func(t rapid.TB, c c32Case, rec *vx.Case) {
 		for i := 0; i < 2 && i < len(c.Setup); i++ {
 			setup[i] = tokensim.Pick(3, c.Setup[i])
 		}
-		c.Link = tokensim.Pick(3, c.Link)
+		c.Link = tokensim.Pick(4, c.Link)
+		mock := c.Link == tokensim.KMock
+		if mock {
+			c.Return = false // the mock side cannot send, so no voucher ever arrives over L0
+		}
 		spec := tokensim.Spec{Chains: 3, Links: []tokensim.LinkSpec{{K: c.Link, A: 0, B: 1}, {K: setup[0], A: 1, B: 2}, {K: setup[1], A: 2, B: 0}}}
 		hops := tokensim.Pick(3, c.Hops)
 		// where is the token native, and which hops bring it to chain 0
@@ -169,7 +180,10 @@ func runC32(outer *testing.T) func(t rapid.TB, c c32Case, rec *vx.Case) {
 		dst := 1
 		li := routeIdx(spec, 0, 1, c.Link)
 		outcome := tokensim.Pick(7, c.Outcome)
-		if outcome == 1 || (c.Disable && (outcome == 2 || outcome == 3)) {
+		if mock && outcome <= 3 {
+			outcome = 1 // the only receive result of the mock application is an error acknowledgement
+		}
+		if !mock && (outcome == 1 || (c.Disable && (outcome == 2 || outcome == 3))) {
 			step(tokensim.Op{K: "force", C: dst, On: false})
 		}
 		before := w.Banks()
@@ -249,17 +263,29 @@ func runC32(outer *testing.T) func(t rapid.TB, c c32Case, rec *vx.Case) {
 				vx.Violatef(t, rec, id, "failed-receive-changed-balances", "%s: receive that wrote an error acknowledgement changed balances: %v -- %s", kindName, d, r.Describe())
 				return
 			}
-			if outcome == 1 || c.Disable {
+			if !mock && (outcome == 1 || c.Disable) {
 				step(tokensim.Op{K: "force", C: dst, On: true})
 			}
 			a := step(tokensim.Op{K: "ack", P: pi, H: -1, Sig: rel})
 			if a.Effect != "refund" {
+				a = step(tokensim.Op{K: "ack", P: pi, H: -1, Sig: rel})
+			}
+			if a.Effect != "refund" {
+				if w.HasCommitment(send.Pkt.P) {
+					// the error acknowledgement is written and proven, yet the refund is refused: the sender is never made whole
+					vx.Violatef(t, rec, id, "error-ack-refund-refused", "%s %d-hop %s: honest relay of the written error acknowledgement (fresh proof, twice) does not commit, the packet stays pending and the sender is not refunded -- %s", kindName, hops, zone, a.Describe())
+					return
+				}
 				rec.Class("error-ack-not-committed")
 				rec.Add("scenario_failed", 1)
 				return
 			}
 			terminalKind = "ack"
-			rec.Class("%s/%s/%d-hop/%s", []string{"", "recv-disabled", "invalid-receiver", "blocked-receiver"}[outcome], kindName, hops, zone)
+			reason := []string{"", "recv-disabled", "invalid-receiver", "blocked-receiver"}[outcome]
+			if mock {
+				reason = "mock-app-error-ack"
+			}
+			rec.Class("%s/%s/%d-hop/%s", reason, kindName, hops, zone)
 		case 4, 5:
 			step(tokensim.Op{K: "block", C: dst, N: 2})
 			step(tokensim.Op{K: "time", N: 60})
@@ -273,6 +299,15 @@ func runC32(outer *testing.T) func(t rapid.TB, c c32Case, rec *vx.Case) {
 			}
 			to := step(tokensim.Op{K: "timeout", P: pi, H: -1, Sig: rel})
 			if to.Effect != "refund" {
+				to = step(tokensim.Op{K: "timeout", P: pi, H: -1, Sig: rel})
+			}
+			if to.Effect != "refund" {
+				if w.HasCommitment(send.Pkt.P) && send.Pkt.Status == tokensim.StSent {
+					// the destination is 3 blocks and 60 s past the timeout, never received the packet, the
+					// proof is fresh -- and still no refund
+					vx.Violatef(t, rec, id, "timeout-refund-refused", "%s %d-hop %s: the packet timed out unreceived (destination 3 blocks and 60 s past the timeout, fresh non-receipt proof, two attempts) but MsgTimeout does not commit, the packet stays pending and the sender is not refunded -- %s", kindName, hops, zone, to.Describe())
+					return
+				}
 				rec.Class("timeout-not-committed")
 				rec.Add("scenario_failed", 1)
 				return
@@ -370,7 +405,7 @@ func b2i(b bool) int64 {
 func TestC32(t *testing.T) {
 	vx.Check(t, vx.Prop[c32Case]{
 		ID: "C32",
-		Rule: "single transfers from chain 0 to chain 1 of a 3-chain world: link kind {v1, v2, alias} x denomination {native, 1-hop voucher, 2-hop voucher; vouchers either forwarded (escrowed) or returned over the end they arrived on (burned)} x outcome {success, receive disabled, invalid receiver, blocked receiver, timeout by height, timeout by time, timeout-boundary race (receive delivered in the destination block whose time == timeout, then MsgTimeout proven at exactly that height)} x route {MsgTransfer, MsgSendPacket} x encoding x amount mode (exact / entire balance / half), followed by 1-3 further terminal messages (verbatim duplicate, fresh ack, fresh timeout, forged ack); " +
+		Rule: "single transfers from chain 0 to chain 1 of a 3-chain world: link kind {v1, v2, alias, v1 channel transfer<->mock port (counterparty is not the transfer port; its app error-acks every receive)} x denomination {native, 1-hop voucher, 2-hop voucher; vouchers either forwarded (escrowed) or returned over the end they arrived on (burned)} x outcome {success, receive disabled, invalid receiver, blocked receiver, timeout by height, timeout by time, timeout-boundary race (receive delivered in the destination block whose time == timeout, then MsgTimeout proven at exactly that height)} x route {MsgTransfer, MsgSendPacket} x encoding x amount mode (exact / entire balance / half), followed by 1-3 further terminal messages (verbatim duplicate, fresh ack, fresh timeout, forged ack); " +
 			"non-trivial = a failure outcome on a voucher denomination that ran to completion; distinct by the whole case",
 		MinNTFrac:   0.35,
 		Assumptions: []string{assumeDenoms, "timeout-on-close is not reachable for transfer channels (user-initiated close is rejected by the transfer module) and is not enumerated"},
